@@ -262,9 +262,16 @@ class CSSRuleRules(CSSRule):
             rule = tempsheet.cssRules[0]
 
         elif isinstance(rule, cssutils.css.CSSRuleList):
-            # insert all rules
-            for i, r in enumerate(rule):
-                self.insertRule(r, index + i)
+            # insert all rules or none
+            done = []
+            try:
+                for i, r in enumerate(rule):
+                    self.insertRule(r, index + i)
+                    done.append(r)
+            except xml.dom.DOMException:
+                for r in done:
+                    self.deleteRule(r)
+                raise
             return True, True
 
         elif not isinstance(rule, cssutils.css.CSSRule):
